@@ -62,6 +62,7 @@ func (node *tagForNode) Execute(ctx *ExecutionContext, writer TemplateWriter) (f
 		}
 		loopInfo.Revcounter = count - idx        // TODO: Not sure about this, have to look it up
 		loopInfo.Revcounter0 = count - (idx + 1) // TODO: Not sure about this, have to look it up
+		verifEv("Iter", idx, count, verifB(loopInfo.First), verifB(loopInfo.Last), node.key, node.value, forCtx)
 
 		// Render elements with updated context
 		err := node.bodyWrapper.Execute(forCtx, writer)
